@@ -1,5 +1,5 @@
 /-
-  The MML reader after repository fix 0680dc7 ("a '%' platform command event carries its own
+  The MML reader after repository fix 1763cac ("a '%' platform command event carries its own
   position"): `MML_Input::parse_mml_track` now does `unget(c); set_reference(get_reference()); get();`
   before adding the `PLATFORM` event of a `%n` command.  Model/Mml (owned by C05) still has the
   old branch (the event kept the previous command's reference, or none at the start of a track);
@@ -28,7 +28,7 @@ def parseMmlTrackF : Nat → P Unit
       conditionalBlockBegin
       parseMmlTrackF fuel
     else if c == 37 then do
-      -- fix 0680dc7: `unget(c); set_reference(get_reference()); get();` before the event
+      -- fix 1763cac: `unget(c); set_reference(get_reference()); get();` before the event
       ungetC c
       let s ← getS
       trackOp (.setReference (some s.inp.getReference))
